@@ -422,7 +422,7 @@ func validityFacts(f *ssa.Function, as string) []string {
 	if f == nil || len(f.Params) == 0 {
 		return nil
 	}
-	pn := f.Params[0].Name()
+	pn := accessPath(f.Params[0])
 	for _, r := range returnsOf(f) {
 		if len(r.Results) != 1 || !isNilConst(r.Results[0]) {
 			continue
@@ -441,7 +441,7 @@ func conditionalValidityFacts(f *ssa.Function, as string, given map[string]bool)
 	if f == nil || len(f.Params) == 0 {
 		return nil
 	}
-	pn := f.Params[0].Name()
+	pn := accessPath(f.Params[0])
 	for _, r := range returnsOf(f) {
 		if len(r.Results) != 1 || isNilConst(r.Results[0]) {
 			continue
